@@ -532,9 +532,9 @@ func histWorker(p *histParams, st *Stats) {
 		}
 	}
 	if p.ctl == nil && lastRun >= 0 && len(st.Violations) == 0 {
-		nc, nd := 24, 10
+		nc, nd := 40, 16
 		if p.tier == "thorough" {
-			nc, nd = 120, 30
+			nc, nd = 160, 30
 		}
 		pristineSample(p, st, lastRun, nc, nd)
 	}
